@@ -50,6 +50,10 @@ def run(ctx):
              "component are refused as schema-resource errors", floor=1)
     run.rule("C12.R7", "no load-phase mutator call on an object shared with "
              "the application schema", floor=8)
+    run.rule("C12.R8", "every load-phase lookup in the schema's own tables "
+             "(type table, component registry) goes through the loader's "
+             "current schema, never through a snapshot taken before a "
+             "%import replaced it", floor=3)
 
     # R1
     F = ctx.flow
@@ -132,3 +136,20 @@ def run(ctx):
     # R7
     from rules import c13
     c13.check_sites(ctx, "C12.R7")
+
+    # R8: what an import adds is visible to every lookup of the load
+    from rules import stale
+    stale.check(ctx, "C12.R8")
+    # ... and the one lookup the option bag makes is made only for a section
+    # an override actually addresses (a load with unrelated overrides must
+    # not consult the bag's schema for imported types at all)
+    from zcstatic import crosscheck as X
+    OB = "ZConfig.cmdline.OptionBag"
+    virt = None
+    if m.lookup_method(OB, "_normalize_case") is None:
+        virt = {"_normalize_case": X.spec_method(
+            P, "ref_matcher.py", "optionbag_normalize_case", OB)}
+    crosscheck(ctx, "C12.R8", OB + ".get_section_info", "ref_matcher.py",
+               "get_section_info", OB,
+               "type looked up only when an override addresses the section",
+               ref_kw={"virtual": virt} if virt else None)
